@@ -183,6 +183,17 @@ Section Topo.
     end.
 End Topo.
 
+(* the types init supplies are available from the start *)
+Definition init_push (te : tyenv) (funcs : list prov) (downTypes : list (nat * nat)) (x0 : topo) : topo :=
+  match find_class ClInit funcs 0 with
+  | Some ip => match getp funcs ip with
+               | Some p => fold_left (fun x t => match alookup t downTypes with
+                                                 | Some num => push_un funcs num x | None => x end)
+                                     (no_no te (pflow p FOut)) x0
+               | None => x0 end
+  | None => x0
+  end.
+
 Definition reorder_funcs (te : tyenv) (funcs : list prov) : res (list prov) :=
   if negb (existsb is_reorder funcs) then Ok funcs else
   let n := length funcs in
@@ -233,13 +244,7 @@ Definition reorder_funcs (te : tyenv) (funcs : list prov) : res (list prov) :=
                    upd_node b (fun d => mkRnode (n_before d) (n_after d) (n_wbefore d) (sdel b (n_wafter d))) ns3)
                  (rs_weak st) nodes2 in
   let x0 := mkTopo nodes3 (rs_cannot st) [] [] [] [] in
-  let x1 := match initPos with
-            | Some ip => match getp funcs ip with
-                         | Some p => fold_left (fun x t => match alookup t (rs_down st) with
-                                                           | Some num => push_un funcs num x | None => x end)
-                                               (no_no te (pflow p FOut)) x0
-                         | None => x0 end
-            | None => x0 end in
+  let x1 := init_push te funcs (rs_down st) x0 in
   let xf := topo_run te funcs (rs_down st) (rs_up st) (4 * (counter + 2) * (counter + 2)) x1 in
   let out := t_out xf in
   let missing := filter (fun i => negb (memb i (t_done xf))) idx in
